@@ -22,6 +22,20 @@ pub struct QSpec {
     /// bit i: the i-th UDP transmission towards the upstream is lost
     pub drop_mask: u8,
     pub drop_all: bool,
+    /// the upstream writes its TCP reply in two pieces, 30 ms apart: 0 = in one piece, 1 = after
+    /// the first octet of the length prefix, 2 = after the length prefix, 3 = in mid-message
+    #[serde(default)]
+    pub reply_split: u8,
+    /// pause between the two pieces (ms)
+    #[serde(default = "default_gap")]
+    pub reply_gap_ms: u16,
+    /// the client sends this query that long after the start of the case (ms)
+    #[serde(default)]
+    pub send_after_ms: u16,
+}
+
+fn default_gap() -> u16 {
+    30
 }
 
 #[derive(Clone, Debug, Serialize, Deserialize, PartialEq)]
@@ -47,8 +61,13 @@ pub fn qspec_strategy(max_drops: u32, allow_all_lost: bool) -> impl Strategy<Val
         proptest::bool::weighted(0.08),
         (0u8..32).prop_filter("too many drops", move |m| m.count_ones() <= max_drops),
         proptest::bool::weighted(if allow_all_lost { 0.03 } else { 0.000001 }),
+        (
+            prop_oneof![6 => Just(0u8), 1 => Just(1u8), 1 => Just(2u8), 1 => Just(3u8)],
+            prop_oneof![3 => Just(30u16), 1 => 1u16..200],
+            prop_oneof![3 => Just(0u16), 2 => 0u16..300],
+        ),
     )
-        .prop_map(|(t, delay_ms, dup, wrong_id, tc, drop_mask, drop_all)| QSpec {
+        .prop_map(|(t, delay_ms, dup, wrong_id, tc, drop_mask, drop_all, (reply_split, reply_gap_ms, send_after_ms))| QSpec {
             tcp: t.0,
             split: t.1,
             addr: t.2,
@@ -59,6 +78,9 @@ pub fn qspec_strategy(max_drops: u32, allow_all_lost: bool) -> impl Strategy<Val
             // loss is a UDP affair; TCP-path queries are exercised with delay/reordering
             drop_mask: if t.0 { 0 } else { drop_mask },
             drop_all: drop_all && !t.0,
+            reply_split,
+            reply_gap_ms,
+            send_after_ms,
         })
 }
 
@@ -119,7 +141,10 @@ impl C07Conc {
         };
         // the server's own back-off (0.8 s, then x1.5..2.5 per retry, at most 4 transmissions) bounds
         // the time to a SERVFAIL at well under 60 s
-        let slow = c.queries.iter().any(|q| q.drop_all || q.drop_mask.count_ones() >= 3 || q.delay_ms >= 2000);
+        // replies written in two pieces are written one after the other by the scripted upstream
+        // (30 ms each): give them time
+        let slow = c.queries.iter().any(|q| q.drop_all || q.drop_mask.count_ones() >= 3 || q.delay_ms >= 2000)
+            || c.queries.iter().filter(|q| q.reply_split > 0).count() > 8;
         let wait = if slow { Duration::from_secs(60) } else { Duration::from_secs(12) };
         let results: Vec<QResult> = std::thread::scope(|s| {
             let hs: Vec<_> = c
@@ -144,6 +169,12 @@ impl C07Conc {
                                 dup: q.dup,
                                 wrong_id_first: q.wrong_id,
                                 tc_udp: q.tc,
+                                tcp_split: match q.reply_split {
+                                    0 => None,
+                                    1 => Some((1, q.reply_gap_ms as u64)),
+                                    2 => Some((2, q.reply_gap_ms as u64)),
+                                    _ => Some((20, q.reply_gap_ms as u64)),
+                                },
                                 ..Default::default()
                             },
                         );
@@ -166,6 +197,9 @@ impl C07Conc {
                         };
                         let qm = dns::query(0x7000 + i as u16, &question.name, 1, 1, true, None);
                         let bytes = dns::encode(&qm, dns::Compress::Off);
+                        if q.send_after_ms > 0 {
+                            std::thread::sleep(Duration::from_millis(q.send_after_ms as u64));
+                        }
                         let r = if q.tcp {
                             let splits: Vec<usize> = match q.split {
                                 0 => vec![],
@@ -198,7 +232,7 @@ impl C07Conc {
         // ---- oracle
         for (i, (r, q)) in results.iter().zip(c.queries.iter()).enumerate() {
             let desc = format!(
-                "query {} ({} to {}, upstream script delay={}ms dup={} wrong_id={} tc={} drops={:#07b}{})",
+                "query {} ({} to {}, upstream script delay={}ms dup={} wrong_id={} tc={} drops={:#07b}{} reply_split={})",
                 i,
                 if q.tcp { format!("TCP split {}", q.split) } else { "UDP".into() },
                 r.dst,
@@ -207,7 +241,8 @@ impl C07Conc {
                 q.wrong_id,
                 q.tc,
                 q.drop_mask,
-                if q.drop_all { " all lost" } else { "" }
+                if q.drop_all { " all lost" } else { "" },
+                q.reply_split
             );
             if let Some(e) = &r.err {
                 out.fail("rig-error", format!("{}: {}", desc, e));
@@ -226,6 +261,10 @@ impl C07Conc {
             }
             if q.wrong_id || q.tc {
                 out.class("upstream-forces-tcp-retry");
+            }
+            if (q.tcp || q.wrong_id || q.tc) && q.reply_split > 0 {
+                out.class("upstream-tcp-reply-in-two-segments");
+                out.nontrivial = true;
             }
             if q.drop_mask != 0 {
                 out.class("upstream-loss");
@@ -310,7 +349,16 @@ impl C07Conc {
                 if !ok {
                     out.fail(
                         "C07:not-its-own-answer",
-                        format!("{}: rcode {} answers {:?} (expected {:?}); upstream saw {} transmissions", desc, m.full_rcode(), m.answer, want.rdata, seen.len()),
+                        format!(
+                            "{}: rcode {} answers {:?} (expected {:?}); upstream saw {} transmissions; EDE {:?}; server panics: {:?}",
+                            desc,
+                            m.full_rcode(),
+                            m.answer,
+                            want.rdata,
+                            seen.len(),
+                            m.edns().and_then(|e| e.ok()).map(|e| e.options.iter().filter(|o| o.0 == 15).map(|o| String::from_utf8_lossy(&o.1[2.min(o.1.len())..]).to_string()).collect::<Vec<_>>()),
+                            server.panics()
+                        ),
                     );
                     return out;
                 }
@@ -357,6 +405,9 @@ pub fn run_c07(ctx: &Ctx) {
         tc: false,
         drop_mask: 0,
         drop_all: false,
+        reply_split: 0,
+        reply_gap_ms: 30,
+        send_after_ms: 0,
     };
     for listener in 0..4u8 {
         let case = ConcCase {
@@ -414,6 +465,64 @@ pub fn run_c07(ctx: &Ctx) {
         }
         if ctx.tier == Tier::Quick {
             break;
+        }
+    }
+    // the upstream TCP connection under load (one connection per upstream, replies matched by
+    // a 16-bit id): (a) 256 queries outstanding on it at the same time (half arrive over TCP,
+    // half are pushed there by a truncated UDP answer; every answer is held back 1.2 s);
+    // (b) 96 queries arriving over 0.6 s while every reply is written in two segments
+    // the smallest such interleaving: a second query reaches the forwarder while the reply to
+    // the first is half written (at each of the three cut points)
+    for cut in 1..=3u8 {
+        let case = ConcCase {
+            listener: 3,
+            queries: vec![
+                QSpec { reply_split: cut, reply_gap_ms: 400, ..plain(true, 0, 0) },
+                QSpec { send_after_ms: 150, ..plain(true, 0, 0) },
+                QSpec { send_after_ms: 900, ..plain(true, 0, 0) },
+            ],
+        };
+        let out = exec_one(&prop, &case);
+        ctx.record(prop.sub(), &case, &out);
+        if let Some(f) = out.fail {
+            if ctx.is_known(&f.sig) {
+                ctx.known_hit(&f.sig);
+            } else {
+                ctx.violation(prop.sub(), &f, &case);
+                return;
+            }
+        }
+    }
+    let rounds = ctx.tier.pick(2usize, 10usize);
+    for r in 0..rounds {
+        let listener = [3u8, 1u8][r % 2];
+        let outstanding: Vec<QSpec> = (0..256usize)
+            .map(|i| QSpec {
+                delay_ms: 1200,
+                tc: i % 2 == 1,
+                ..plain(i % 2 == 0, 0, (i % 7) as u8)
+            })
+            .collect();
+        let segmented: Vec<QSpec> = (0..96usize)
+            .map(|i| QSpec {
+                delay_ms: ((i * 37) % 600) as u16,
+                tc: i % 3 == 1,
+                reply_split: 1 + (i % 3) as u8,
+                ..plain(i % 3 != 1, 0, (i % 5) as u8)
+            })
+            .collect();
+        for queries in [outstanding, segmented] {
+            let case = ConcCase { listener, queries };
+            let out = exec_one(&prop, &case);
+            ctx.record(prop.sub(), &case, &out);
+            if let Some(f) = out.fail {
+                if ctx.is_known(&f.sig) {
+                    ctx.known_hit(&f.sig);
+                } else {
+                    ctx.violation(prop.sub(), &f, &case);
+                    return;
+                }
+            }
         }
     }
     ctx.extra(
